@@ -237,16 +237,6 @@ impl Parser {
             return Ok(resolving_schema.clone());
         }
 
-        // For good error reporting we add this check
-        match fully_qualified_name.name() {
-            "record" | "enum" | "fixed" => {
-                return Err(
-                    Details::InvalidSchemaRecord(fully_qualified_name.name().to_string()).into(),
-                );
-            }
-            _ => (),
-        }
-
         if !self.input_schemas.contains_key(&fully_qualified_name)
             && self.nested_names.contains(&fully_qualified_name)
         {
@@ -263,7 +253,12 @@ impl Parser {
             // TODO make a better descriptive error message here that conveys that a named schema cannot be found
             .ok_or_else(|| {
                 let full_name = fully_qualified_name.fullname(None);
-                if full_name == "bool" {
+                // For good error reporting we add this check. It applies only when nothing of that
+                // name is defined: a schema can be called like a kind of schema, and a reference to
+                // it must not depend on whether it has been parsed before
+                if matches!(fully_qualified_name.name(), "record" | "enum" | "fixed") {
+                    Details::InvalidSchemaRecord(fully_qualified_name.name().to_string())
+                } else if full_name == "bool" {
                     Details::ParsePrimitiveSimilar(full_name, "boolean")
                 } else {
                     Details::ParsePrimitive(full_name)
